@@ -5,6 +5,7 @@ package main
 // M-IDX (C07), M-PIN (C14), M-PAGE (C15), plus the C03 / C09 / C10 / C06 oracles.
 
 import (
+	"math"
 	"encoding/binary"
 	"encoding/json"
 	"fmt"
@@ -34,6 +35,10 @@ type SqlCfg struct {
 	PSelect    float64     `json:"p_select"`
 	AbortFocus bool        `json:"abort_focus"` // C03: observable snapshot before/after every aborted transaction
 	InitRows   int         `json:"init_rows"`
+	Rich       bool        `json:"rich"`  // C06: boundary values, NULLs, negative literals, redundant/contradictory predicates
+	Joins      bool        `json:"joins"` // C11: join queries
+	PinFocus   bool        `json:"pin_focus"`
+	Nulls      bool        `json:"nulls"` // NULL values (known finding null-in-indexed-column): a minority of the C06 runs
 }
 
 func genCols(r *rng, rich bool) []Col {
@@ -97,14 +102,95 @@ func genSqlCfg(r *rng, prop string, tier string) SqlCfg {
 	case "C14":
 		c.PSelect = 0.4
 		c.PAbort = 0.2
+		c.Joins = r.Chance(0.6)
+		c.PStats = []float64{0, 0.1, 0.3}[r.Intn(3)]
+		c.PinFocus = true
+	case "C06":
+		c.Rich = true
+		c.Nulls = r.Chance(0.12)
+		c.PSelect = 0.6
+		c.PStats = []float64{0, 0.1, 0.3}[r.Intn(3)]
+		c.PRestart, c.PCrashRestart = 0, 0
+		c.PAbort = 0.1
+	case "C11":
+		c.Joins = true
+		c.PSelect = 0.6
+		c.PStats = []float64{0, 0.1, 0.3}[r.Intn(3)]
+		c.PRestart, c.PCrashRestart = 0, 0
+		c.PAbort = 0.05
+	}
+	if c.Joins {
+		// join tables: an int join column j with duplicates and gaps in every table
+		nt := 2 + r.Intn(2)
+		c.Tables = nil
+		for i := 0; i < nt; i++ {
+			cols := []Col{{"k", TInt}, {"j", TInt}}
+			if r.Chance(0.7) {
+				cols = append(cols, Col{"v", []ColType{TInt, TVarchar, TFloat}[r.Intn(3)]})
+			}
+			c.Tables = append(c.Tables, TableSpec{Name: fmt.Sprintf("t%d", i), Cols: cols, Wide: []int{6, 30, 120}[r.Intn(3)]})
+		}
+		c.InitRows = []int{0, 2, 8, 25, 60}[r.Intn(5)]
 	}
 	return c
 }
 
 // ---------------------------------------------------------------- generator
 
+var genNulls = false
+
 // genNegInts: negative integer literals (only the C06 generator explores them; see DESIGN.md section 6)
 var genNegInts = false
+
+// richVal: values from the corners of the type (C06); may be inexpressible as SQL literals.
+func richVal(r *rng, t ColType, wide int) (v any, needsPlan bool) {
+	switch t {
+	case TInt:
+		switch r.Intn(8) {
+		case 0:
+			return int32(2147483647), false
+		case 1:
+			return int32(-2147483647), true // negative literals are not accepted in a VALUES list
+		case 2:
+			return int32(-2147483648), true
+		case 3:
+			if genNulls {
+				return nil, true
+			}
+		}
+	case TFloat:
+		switch r.Intn(8) {
+		case 0:
+			return float32(math.Copysign(0, -1)), true
+		case 1:
+			return math.Float32frombits(1), true // smallest denormal
+		case 2:
+			return float32(math.MaxFloat32), true
+		case 3:
+			return float32(-math.MaxFloat32), true
+		case 4:
+			if genNulls {
+				return nil, true
+			}
+		case 5:
+			return float32(-1 - r.Intn(40)), true
+		}
+	case TVarchar:
+		switch r.Intn(8) {
+		case 0:
+			return "", true
+		case 1:
+			return r.Str(200 + r.Intn(50)), false
+		case 2:
+			return "a b  c", false
+		case 3:
+			if genNulls {
+				return nil, true
+			}
+		}
+	}
+	return randVal(r, t, wide), false
+}
 
 func randVal(r *rng, t ColType, wide int) any {
 	switch t {
@@ -137,9 +223,244 @@ func randVal(r *rng, t ColType, wide int) any {
 func sqlRow(r *rng, ts *TableSpec, k int32) []any {
 	row := []any{k}
 	for _, c := range ts.Cols[1:] {
+		if c.Name == "j" {
+			row = append(row, int32(r.Intn(6))) // join keys: few values, duplicates, gaps
+			continue
+		}
 		row = append(row, randVal(r, c.Type, ts.Wide))
 	}
 	return row
+}
+
+// richRow: like sqlRow with corner values; plan=true when some value needs the plan-level API.
+func richRow(r *rng, ts *TableSpec, k int32) (row []any, plan bool) {
+	row = []any{k}
+	for _, c := range ts.Cols[1:] {
+		v, np := richVal(r, c.Type, ts.Wide)
+		if np {
+			plan = true
+		}
+		if iv, ok := v.(int32); ok && iv < 0 {
+			plan = true
+		}
+		row = append(row, v)
+	}
+	return
+}
+
+// opFeatures: properties of the operations of a (minimised) replay that known findings key on.
+func opFeatures(ops []Op) map[string]bool {
+	f := map[string]bool{}
+	var walk func(p *Pred, cols map[string]int, hasOr *bool)
+	walk = func(p *Pred, cols map[string]int, hasOr *bool) {
+		if p == nil {
+			return
+		}
+		if p.Logic != "" {
+			if p.Logic == "OR" {
+				*hasOr = true
+			}
+			walk(p.L, cols, hasOr)
+			walk(p.R, cols, hasOr)
+			return
+		}
+		cols[p.Col]++
+		if p.Val == nil {
+			f["stmt:null-literal"] = true
+		}
+		switch x := p.Val.(type) {
+		case int32:
+			if x < 0 {
+				f["stmt:neg-literal"] = true
+			}
+		case float32:
+			if x < 0 {
+				f["stmt:neg-literal"] = true
+			}
+		}
+	}
+	for _, op := range ops {
+		switch op.Kind {
+		case "restart-crash":
+			f["ctx:crash-restart"] = true
+		case "restart-clean":
+			f["ctx:clean-restart"] = true
+		case "ddl":
+			f["ctx:late-ddl"] = true
+		case "stats":
+			f["ctx:stats-refresh"] = true
+		}
+		st := op.Stmt
+		if st == nil {
+			continue
+		}
+		f["stmt:"+st.Kind] = true
+		if st.Join != nil {
+			f["stmt:join"] = true
+			if len(st.Join.Tables) > 2 {
+				f["stmt:join3"] = true
+			}
+		}
+		if st.Plan {
+			f["stmt:plan-level-insert"] = true
+		}
+		for _, r := range st.Rows {
+			for _, v := range r {
+				if v == nil {
+					f["data:null"] = true
+				}
+				switch x := v.(type) {
+				case float32:
+					if x != x || x > 1e30 || x < -1e30 || (x != 0 && x < 1e-30 && x > -1e-30) || (x == 0 && math.Signbit(float64(x))) {
+						f["data:float-special"] = true
+					}
+				case string:
+					if x == "" {
+						f["data:empty-string"] = true
+					}
+					if len(x) > 150 {
+						f["data:long-string"] = true
+					}
+				}
+			}
+		}
+		for _, si := range st.Set {
+			if si.Val == nil {
+				f["data:null"] = true
+			}
+			switch x := si.Val.(type) {
+			case int32:
+				if x < 0 {
+					f["stmt:neg-literal"] = true
+				}
+			case float32:
+				if x < 0 {
+					f["stmt:neg-literal"] = true
+				}
+			}
+		}
+		cols := map[string]int{}
+		hasOr := false
+		walk(st.Where, cols, &hasOr)
+		if hasOr {
+			f["stmt:where-or"] = true
+		}
+		for _, n := range cols {
+			if n > 1 {
+				f["stmt:where-multi-bound"] = true
+			}
+		}
+	}
+	return f
+}
+
+// richPredicate: several bounds on ONE column (redundant, overlapping, contradictory) in random
+// conjunct order, optionally with a conjunct on another column.
+func richPredicate(r *rng, ts *TableSpec, view []viewRow) *Pred {
+	ci := r.Intn(len(ts.Cols))
+	col := ts.Cols[ci]
+	pickV := func() any {
+		if len(view) > 0 && r.Chance(0.7) {
+			if v := view[r.Intn(len(view))].vals[ci]; v != nil {
+				return v
+			}
+		}
+		return randVal(r, col.Type, ts.Wide)
+	}
+	ops := []string{"=", "<", "<=", ">", ">=", "<>"}
+	if col.Type == TVarchar {
+		ops = []string{"=", "<>", "=", "<", ">="}
+	}
+	n := 2 + r.Intn(2)
+	var p *Pred
+	for i := 0; i < n; i++ {
+		leaf := &Pred{Col: col.Name, Op: ops[r.Intn(len(ops))], Val: pickV()}
+		if i == n-1 && r.Chance(0.3) && len(ts.Cols) > 1 {
+			c2 := (ci + 1 + r.Intn(len(ts.Cols)-1)) % len(ts.Cols)
+			leaf = &Pred{Col: ts.Cols[c2].Name, Op: "=", Val: randVal(r, ts.Cols[c2].Type, ts.Wide)}
+			if len(view) > 0 {
+				if v := view[r.Intn(len(view))].vals[c2]; v != nil {
+					leaf.Val = v
+				}
+			}
+		}
+		if p == nil {
+			p = leaf
+		} else if r.Chance(0.5) {
+			p = &Pred{Logic: "AND", L: p, R: leaf}
+		} else {
+			p = &Pred{Logic: "AND", L: leaf, R: p}
+		}
+	}
+	return p
+}
+
+// joinStmt: equality join over 2-3 tables, conjunctive filter, arbitrary select list.
+func (g *sqlGen) joinStmt(e *Exec) *Stmt {
+	r := g.r
+	tbs := g.tables(e)
+	n := 2
+	if len(tbs) >= 3 && r.Chance(0.4) {
+		n = 3
+	}
+	perm := r.permN(len(tbs))
+	var chosen []*TableSpec
+	for i := 0; i < n; i++ {
+		chosen = append(chosen, tbs[perm[i]])
+	}
+	js := &JoinSpec{}
+	for _, t := range chosen {
+		js.Tables = append(js.Tables, t.Name)
+	}
+	for i := 1; i < n; i++ {
+		l := chosen[r.Intn(i)]
+		js.On = append(js.On, JoinOn{L: l.Name + ".j", R: chosen[i].Name + ".j"})
+		if r.Chance(0.15) {
+			js.On[len(js.On)-1] = JoinOn{L: l.Name + ".k", R: chosen[i].Name + ".j"}
+		}
+	}
+	st := &Stmt{Kind: "select", Table: chosen[0].Name, Join: js}
+	if r.Chance(0.3) {
+		st.Cols = []string{"*"}
+	} else {
+		var all []string
+		for _, t := range chosen {
+			for _, c := range t.Cols {
+				all = append(all, t.Name+"."+c.Name)
+			}
+		}
+		k := 1 + r.Intn(len(all))
+		p2 := r.permN(len(all))
+		for i := 0; i < k; i++ {
+			st.Cols = append(st.Cols, all[p2[i]])
+		}
+	}
+	nf := r.Intn(3)
+	for i := 0; i < nf; i++ {
+		t := chosen[r.Intn(n)]
+		c := t.Cols[r.Intn(len(t.Cols))]
+		ops := []string{"=", "<", "<=", ">", ">=", "<>"}
+		if c.Type == TVarchar {
+			ops = []string{"=", "<>"}
+		}
+		var v any = randVal(r, c.Type, t.Wide)
+		if c.Name == "j" {
+			v = int32(r.Intn(6))
+		}
+		mt := e.M.Table(t.Name)
+		if len(mt.Rows) > 0 && r.Chance(0.6) {
+			if vv := mt.Rows[r.Intn(len(mt.Rows))].Vals[mt.ColIdx(c.Name)]; vv != nil {
+				v = vv
+			}
+		}
+		leaf := &Pred{Col: t.Name + "." + c.Name, Op: ops[r.Intn(len(ops))], Val: v}
+		if st.Where == nil {
+			st.Where = leaf
+		} else {
+			st.Where = &Pred{Logic: "AND", L: st.Where, R: leaf}
+		}
+	}
+	return st
 }
 
 // genPredicate: predicates over any column, shapes that need no parentheses.
@@ -150,8 +471,9 @@ func genPredicate(r *rng, ts *TableSpec, mt *MTable, view []viewRow) *Pred {
 		var v any
 		if len(view) > 0 && r.Chance(0.7) {
 			v = view[r.Intn(len(view))].vals[ci]
-		} else {
-			v = randVal(r, col.Type, ts.Wide)
+		}
+		if v == nil {
+			v = randVal(r, col.Type, ts.Wide) // no NULL constants in comparisons (col = NULL is not a SQL comparison)
 		}
 		ops := []string{"=", "=", "=", "<", "<=", ">", ">=", "<>"}
 		if col.Type == TVarchar || col.Type == TBool {
@@ -200,6 +522,9 @@ func (g *sqlGen) stmt(e *Exec, mt *MTxn) *Stmt {
 	} else {
 		view = e.M.Begin().view(t)
 	}
+	if g.cfg.Joins && r.Chance(g.cfg.PSelect*0.8) && len(tbs) >= 2 {
+		return g.joinStmt(e)
+	}
 	if r.Chance(g.cfg.PSelect) {
 		cols := colNames(ts)
 		if r.Chance(0.4) {
@@ -213,7 +538,11 @@ func (g *sqlGen) stmt(e *Exec, mt *MTxn) *Stmt {
 		}
 		st := &Stmt{Kind: "select", Table: ts.Name, Cols: cols}
 		if r.Chance(0.9) {
-			st.Where = genPredicate(r, ts, t, view)
+			if g.cfg.Rich && r.Chance(0.6) {
+				st.Where = richPredicate(r, ts, view)
+			} else {
+				st.Where = genPredicate(r, ts, t, view)
+			}
 		}
 		return st
 	}
@@ -223,9 +552,28 @@ func (g *sqlGen) stmt(e *Exec, mt *MTxn) *Stmt {
 	}
 	switch {
 	case kind <= 3:
-		return &Stmt{Kind: "insert", Table: ts.Name, Cols: colNames(ts), Rows: [][]any{sqlRow(r, ts, g.kg.fresh(ts.Name))}}
+		if g.cfg.Rich && r.Chance(0.5) {
+			row, plan := richRow(r, ts, g.kg.fresh(ts.Name))
+			return &Stmt{Kind: "insert", Table: ts.Name, Cols: colNames(ts), Rows: [][]any{row}, Plan: plan}
+		}
+		{
+			row := sqlRow(r, ts, g.kg.fresh(ts.Name))
+			st := &Stmt{Kind: "insert", Table: ts.Name, Cols: colNames(ts), Rows: [][]any{row}}
+			for _, v := range row {
+				switch x := v.(type) {
+				case int32:
+					st.Plan = st.Plan || x < 0
+				case float32:
+					st.Plan = st.Plan || x < 0
+				}
+			}
+			return st
+		}
 	case kind <= 7:
 		st := &Stmt{Kind: "update", Table: ts.Name, Where: genPredicate(r, ts, t, view)}
+		if g.cfg.Rich && r.Chance(0.5) {
+			st.Where = richPredicate(r, ts, view)
+		}
 		n := 1 + r.Intn(2)
 		used := map[int]bool{}
 		for i := 0; i < n; i++ {
@@ -265,7 +613,9 @@ func (g *sqlGen) next(e *Exec) Op {
 			case r.Chance(0.03):
 				return Op{Kind: "checkpoint"}
 			case r.Chance(0.25):
-				return Op{Kind: "auto", Stmt: g.stmt(e, nil)}
+				if st := g.stmt(e, nil); !st.Plan {
+					return Op{Kind: "auto", Stmt: st}
+				}
 			}
 		}
 		return Op{T: t, Kind: "begin"}
@@ -835,6 +1185,8 @@ func (sr *SqlRun) open() bool {
 
 func (sr *SqlRun) execute(ops []Op, gen *sqlGen) {
 	cfg := &sr.Cfg
+	genNegInts = cfg.Rich && sr.Seed%4 == 0 // negative literals (known finding) in a quarter of the rich runs
+	genNulls = cfg.Nulls
 	removeDBFiles(sr.Dir + "/db")
 	backgroundOff()
 	simrt.SeedRun(sr.Seed, cfg.MapPermute)
@@ -1128,6 +1480,53 @@ func runSqlSim(run int, seed uint64) RunReport {
 	for k, n := range e.PlanShapes {
 		sr.stat("plan:"+k, n)
 	}
+	// environment replication (C06 / C11): the same operations in a second environment (other map
+	// order, other pool size, statistics refreshed before every SELECT or never) must give the
+	// reference answers too; statements answered by two different plans are counted
+	var extraViol []Violation
+	var envB *SqlRun
+	if (flProp == "C06" || flProp == "C11") && !sr.dead && !sr.diverged {
+		cfgB := sr.Cfg
+		cfgB.MapPermute = !cfgB.MapPermute
+		if cfgB.Frames >= 64 {
+			cfgB.Frames = 0
+		} else {
+			cfgB.Frames = 64
+		}
+		var opsB []Op
+		mode := wr.Intn(2)
+		for _, op := range sr.Ops {
+			if op.Kind == "stats" {
+				continue
+			}
+			if mode == 0 && op.Stmt != nil && op.Stmt.Kind == "select" && (op.Kind == "auto") {
+				opsB = append(opsB, Op{Kind: "stats"})
+			}
+			opsB = append(opsB, op)
+		}
+		envB = newSqlRun(seed, cfgB, "qb")
+		envB.Ops = opsB
+		liveCfg, liveOps = &envB.Cfg, &envB.Ops
+		envB.execute(opsB, nil)
+		os.RemoveAll(envB.Dir)
+		if envB.Infeasible == "" {
+			sr.stat("env_replications", 1)
+			extraViol = envB.Viol
+			// compare plans statement by statement (same statements, stats ops aside)
+			pa, pb := sr.E.PlanByStmt, envB.E.PlanByStmt
+			for sql, a := range pa {
+				if b, ok := pb[sql]; ok {
+					sr.stat("statements_in_two_environments", 1)
+					if a != b {
+						sr.stat("statements_answered_by_two_plans", 1)
+					}
+				}
+			}
+			for k, n := range envB.E.PlanShapes {
+				sr.stat("plan:"+k, n)
+			}
+		}
+	}
 	rep.Stats = sr.Stats
 	rep.Sig = shapeSig(sr.sig.String())
 	rep.Nontrivial = e.StmtCount+e.Commits > 0
@@ -1136,22 +1535,30 @@ func runSqlSim(run int, seed uint64) RunReport {
 	rep.Sample = map[string]any{"cfg": sr.Cfg, "ops": json.RawMessage(opsJSON)}
 	seen := map[string]bool{}
 	other := map[string]int{}
-	for _, v := range sr.Viol {
+	report := func(src *SqlRun, v Violation) {
 		if v.Property != flProp {
 			other[v.Property+":"+v.Class]++
-			continue
+			return
 		}
 		if seen[v.Key()] {
-			continue
+			return
 		}
 		seen[v.Key()] = true
-		rf := ReplayFile{Property: v.Property, Driver: "sqlsim", Seed: seed, Tier: flTier, Cfg: mustJSON(sr.Cfg), Ops: opsJSON, Faults: v.Faults, Violation: v, OpsCount: len(sr.Ops)}
+		oj, _ := marshalOps(src.Ops)
+		v.Features = opFeatures(src.Ops)
+		rf := ReplayFile{Property: v.Property, Driver: "sqlsim", Seed: seed, Tier: flTier, Cfg: mustJSON(src.Cfg), Ops: oj, Faults: v.Faults, Violation: v, OpsCount: len(src.Ops)}
 		if flMinimise && len(seen) <= 2 {
-			if m := minimiseSql(sr, v); m != nil {
+			if m := minimiseSql(src, v); m != nil {
 				rf = *m
 			}
 		}
 		rep.Viol = append(rep.Viol, rf)
+	}
+	for _, v := range sr.Viol {
+		report(sr, v)
+	}
+	for _, v := range extraViol {
+		report(envB, v)
 	}
 	if len(other) > 0 {
 		rep.Extra = map[string]any{"other_property_observations": other}
@@ -1244,6 +1651,7 @@ func minimiseSql(sr0 *SqlRun, v Violation) *ReplayFile {
 		return nil
 	}
 	best = *got
+	best.Features = opFeatures(ops)
 	opsJSON, _ := marshalOps(ops)
 	return &ReplayFile{Property: best.Property, Driver: "sqlsim", Seed: sr0.Seed, Tier: flTier, Cfg: mustJSON(cfg), Ops: opsJSON, Faults: best.Faults, Violation: best, Minimised: true, OpsCount: len(ops)}
 }
